@@ -31,6 +31,7 @@ type SpecEnv struct {
 	fn    *ssa.Function // for locals by name (loop invariants); nil otherwise
 	loop  *loopCtx
 	bound map[string]bool // SMT symbols of enclosing quantifier variables
+	binders []string      // "(sym sort)" of enclosing quantifier variables
 	facts *[]string
 	depth int
 }
@@ -478,12 +479,16 @@ func (env *SpecEnv) eval(x SExpr) TV {
 				e.declSort(so)
 				sym := fmt.Sprintf("|%s%s!q%d|", qv.Name, path, e.fresh)
 				binders = append(binders, fmt.Sprintf("(%s %s)", sym, so))
+				nenv.binders = append(append([]string{}, nenv.binders...), fmt.Sprintf("(%s %s)", sym, so))
 				nenv.bound[sym] = true
 				return sym
 			})
 			nenv.vars[qv.Name] = TV{v, t}
 		}
+		savedB := e.curBinders
+		e.curBinders = nenv.binders
 		body := nenv.evalBool(n.Body)
+		e.curBinders = savedB
 		q := "exists"
 		if n.All {
 			q = "forall"
@@ -838,6 +843,29 @@ func (e *Exec) evalClause(x SExpr, env *SpecEnv) (term string, facts []string) {
 	if env.bound == nil {
 		env.bound = map[string]bool{}
 	}
+	saved := e.specHook
+	seenFact := map[string]bool{}
+	e.specHook = func(t, famSym string) {
+		birth, ok := e.famBirth[famSym]
+		if !ok || seenFact[t] {
+			return
+		}
+		seenFact[t] = true
+		body := fmt.Sprintf("(or (= %s null) (%s %s))", t, birth, t)
+		// close over the bound variables that occur in the term
+		var bs []string
+		for _, b := range e.curBinders {
+			sym := b[1:strings.Index(b, " ")]
+			if strings.Contains(t, sym) {
+				bs = append(bs, b)
+			}
+		}
+		if len(bs) > 0 {
+			body = fmt.Sprintf("(forall (%s) (! %s :pattern (%s)))", strings.Join(bs, " "), body, t)
+		}
+		facts = append(facts, body)
+	}
+	defer func() { e.specHook = saved }()
 	term = env.evalBool(x)
 	return
 }
